@@ -42,6 +42,8 @@ import (
 
 var defaultW int // the package's own initial validateRoutineCount (runtime.NumCPU())
 
+var watchdogExpiries, watchdogNotReproduced int64 // runs whose per-block watchdog expired / of those: got through when repeated
+
 func setWorkersRaw(n int) int { return evm.SetVerifValidateRoutineCount(n) }
 
 func setWorkers(w int) {
@@ -146,6 +148,9 @@ func (d *driver) buildReference(name string) *refChain {
 	}
 	c := cfg{P: 0, W: 1}
 	rr, ref := execRun(d.dirFor(name, c), cd, nil, c)
+	for i := 0; i < 2 && rr.Fail != nil && rr.Fail.Kind == kindNeverFinishes; i++ {
+		rr, ref = execRun(d.dirFor(name, c), cd, nil, c)
+	}
 	d.mu.Lock()
 	d.refs[name] = ref
 	d.results[name] = map[cfg]*runResult{c: rr}
@@ -158,6 +163,9 @@ func (d *driver) runOne(name string, c cfg) *runResult {
 	ref := d.refs[name]
 	d.mu.Unlock()
 	rr, _ := execRun(d.dirFor(name, c), ref.def, ref, c)
+	for i := 0; i < 2 && rr.Fail != nil && rr.Fail.Kind == kindNeverFinishes; i++ {
+		rr, _ = execRun(d.dirFor(name, c), ref.def, ref, c)
+	}
 	d.mu.Lock()
 	d.results[name][c] = rr
 	d.mu.Unlock()
@@ -278,8 +286,16 @@ func (d *driver) judge(ref *refChain, res map[cfg]*runResult, x *runResult, only
 
 	if x.Fail != nil && want("failure") {
 		f := x.Fail
-		report(nil, "failure", f.Stage+"-"+f.Kind, f.Block, f.Stage, map[string]string{"site": f.Site},
-			fmt.Sprintf("chain %s: replica [lifetimes %s, %s workers] %s at block %d during %s: %s", name, x.Cfg.partition(n), x.Cfg.workers(), f.Kind, f.Block, f.Stage, f.Msg))
+		kind, more := f.Stage+"-"+f.Kind, ""
+		if f.Kind == kindNeverFinishes {
+			kind = kindNeverFinishes
+			more = fmt.Sprintf(" (the same in 3 runs out of 3, each in a process of its own); block %d is %s", f.Block, blockKinds(ref.def, f.Block))
+			if r0 := res[cfg{P: 0, W: 1}]; r0 != nil && r0 != x && f.Block <= len(r0.Blocks) {
+				more += fmt.Sprintf("; the replica [one lifetime, 1 worker] executed it: %s", r0.Blocks[f.Block-1]["execute-result"])
+			}
+		}
+		report(nil, "failure", kind, f.Block, f.Stage, map[string]string{"site": f.Site},
+			fmt.Sprintf("chain %s: replica [lifetimes %s, %s workers] %s at block %d during %s: %s%s", name, x.Cfg.partition(n), x.Cfg.workers(), f.Kind, f.Block, f.Stage, f.Msg, more))
 	}
 
 	// acceptance must agree with the hashes (sanity of the harness itself)
@@ -437,6 +453,17 @@ func (d *driver) judge(ref *refChain, res map[cfg]*runResult, x *runResult, only
 	}
 }
 
+func blockKinds(cd *chainDef, h int) string {
+	if h < 1 || h > len(cd.Blocks) {
+		return "?"
+	}
+	var ks []string
+	for _, t := range cd.Blocks[h-1] {
+		ks = append(ks, t.Kind)
+	}
+	return "[" + strings.Join(ks, " ") + "]"
+}
+
 func shortList(a []string, n int) string {
 	if len(a) <= n {
 		return strings.Join(a, " ")
@@ -572,7 +599,7 @@ func main() {
 		run.Finish(nil, nil)
 	}
 
-	chains := []string{"K2", "C", "A"} // C (no KV transaction: nothing excuses a difference) before A: under a time cap the most discriminating chain completes first
+	chains := []string{"K2", "K24", "S", "H", "C", "A"} // C (no KV transaction: nothing excuses a difference) before A: under a time cap the most discriminating chain completes first
 	ws := []int{1, 2, 8}
 	if !run.Quick() {
 		chains = append(chains, "B", "D", "E")
@@ -624,7 +651,7 @@ func main() {
 	// wall-clock cap: when it is reached no further batch is started; chains
 	// whose runs are then incomplete are not judged and listed as skipped
 	// (exhaustive:false).  A cap never produces a verdict.
-	capS := run.Pick(300, 780)
+	capS := run.Pick(540, 780) // safety nets: the quick list (6 chains, 294 runs) completes in a fraction of this unless the machine is heavily loaded
 	if v := os.Getenv("C05_TIME_CAP"); v != "" {
 		fmt.Sscanf(v, "%d", &capS)
 	}
@@ -643,6 +670,39 @@ func main() {
 		for _, r := range res {
 			all = append(all, r...)
 		}
+		// a run whose per-block watchdog expired is repeated twice, each time in a process of
+		// its own; the first repetition that gets through replaces it
+		jobOf := map[string]wireJob{}
+		for _, b := range batches {
+			for _, j := range b {
+				jobOf[j.Chain+"/"+j.Cfg.String()] = j
+			}
+		}
+		var again []int
+		for i, sp := range all {
+			if sp.rr.Fail != nil && sp.rr.Fail.Kind == kindNeverFinishes {
+				again = append(again, i)
+			}
+		}
+		parN(len(again), procs, func(k int) {
+			i := again[k]
+			atomic.AddInt64(&watchdogExpiries, 1)
+			j, ok := jobOf[all[i].rr.Chain+"/"+all[i].rr.Cfg.String()]
+			if !ok {
+				core.Fatal("no job for run %s %v", all[i].rr.Chain, all[i].rr.Cfg)
+			}
+			for rep := 0; rep < 2; rep++ {
+				r := d.spawn([]wireJob{j})
+				if len(r) != 1 {
+					core.Fatal("re-run of %s %v returned %d results", j.Chain, j.Cfg, len(r))
+				}
+				if r[0].rr.Fail == nil || r[0].rr.Fail.Kind != kindNeverFinishes {
+					atomic.AddInt64(&watchdogNotReproduced, 1)
+					all[i] = r[0]
+					return
+				}
+			}
+		})
 		return all
 	}
 
@@ -654,7 +714,13 @@ func main() {
 	var cur []string
 	for _, name := range chains {
 		isOrd := strings.HasPrefix(name, "ord-")
-		if len(cur) > 0 && ((isOrd != strings.HasPrefix(cur[0], "ord-")) || (isOrd && len(cur) >= 20) || (!isOrd && len(cur) >= 3)) {
+		heavy := 0 // the short chains (K2, K24, S, H: a handful of runs each) ride along with the first group of 6-block chains
+		for _, c := range cur {
+			if len(defs[c].Blocks) >= 6 {
+				heavy++
+			}
+		}
+		if len(cur) > 0 && ((isOrd != strings.HasPrefix(cur[0], "ord-")) || (isOrd && len(cur) >= 20) || (!isOrd && heavy >= 3)) {
 			groups = append(groups, cur)
 			cur = nil
 		}
@@ -840,7 +906,7 @@ func main() {
 		"traces_validated_against_impl": runs,
 		"evaluations":                   int(d.evals),
 		"distinct_nontrivial":           d.records.Len(),
-		"rule":                          "for each fixed chain: the reference replica (one lifetime, 1 worker) builds the blocks; then EVERY partition of the chain into process lifetimes (2^(n-1): Stop()+NewEVMApp+Start on the same directory after the chosen blocks) × EVERY worker count in the list is run on a fresh directory and fed exactly those blocks, plus default-worker-count catch-up replicas (one lifetime / restart after every block) and repeated identical configurations; every run ends with one more restart after which the query list is read again. Compared per block and per component (app-hash, receipts-hash, execute-result, 7 query classes): same partition vs 1 worker; same workers vs unpartitioned run (receipts-hash: vs the smallest partition whose executing lifetime had applied the same earlier KV transactions, that one vs the unpartitioned run); repeated runs; after-restart answers vs before-restart answers. states = distinct (chain, height, first block of the executing lifetime, workers); distinct_nontrivial = distinct (chain, height, full record) values observed",
+		"rule":                          "for each fixed chain: the reference replica (one lifetime, 1 worker) builds the blocks; then EVERY partition of the chain into process lifetimes (2^(n-1): Stop()+NewEVMApp+Start on the same directory after the chosen blocks) × EVERY worker count in the list is run on a fresh directory and fed exactly those blocks, plus default-worker-count catch-up replicas (one lifetime / restart after every block) and repeated identical configurations; every run ends with one more restart after which the query list is read again. Chains: K2 (one KV block, one empty block), K24 (24 KV transactions on distinct keys by three senders in one block; 9 overwrites in another order next to 9 new keys; empty block), S (blocks of k = 1, 2, 3 transactions with an unrecoverable signature FOLLOWED by good ones, and 3 of them at the end of a block), H (Clock fixture deployed in block 1, empty block, called in blocks 3 and 4), the 6-block chains (every transaction kind; the Clock fixture stores TIMESTAMP, NUMBER, COINBASE, GASLIMIT and BLOCKHASH(NUMBER-k) for k = -1..7 when called, blocks after its creation), thorough: 120 ordering chains. Every OnExecute runs under a per-block watchdog (expires after >= watchdog.min_wait_s with the process idle, or watchdog.hard_cap_s; an expired run is repeated twice in new processes; 3 expiries out of 3 are reported as kind block-never-finishes). Compared per block and per component (app-hash, receipts-hash, execute-result, 7 query classes): same partition vs 1 worker; same workers vs unpartitioned run (receipts-hash: vs the smallest partition whose executing lifetime had applied the same earlier KV transactions, that one vs the unpartitioned run); repeated runs; after-restart answers vs before-restart answers. states = distinct (chain, height, first block of the executing lifetime, workers); distinct_nontrivial = distinct (chain, height, full record) values observed",
 		"exhaustive":                    !incomplete,
 		"chains":                        len(chains),
 		"chains_skipped_by_time_cap":    skippedChains,
@@ -851,7 +917,8 @@ func main() {
 		"restarts":                      int(d.restarts),
 		"application_opens":             int(openCount),
 		"queries_evaluated":             int(queryExec),
-		"bounds":                        map[string]interface{}{"blocks_per_chain": "2 (K2), 6 (A B C D E), 3 (ord-*)", "partitions": "all 2^(n-1)", "workers": wl, "default_workers": defaultW},
+		"watchdog":                      map[string]interface{}{"min_wait_s": watchdogMinS, "idle_window_s": watchdogIdleS, "hard_cap_s": watchdogHardS, "runs_expired": int(watchdogExpiries), "of_those_finished_when_repeated": int(watchdogNotReproduced)},
+		"bounds":                        map[string]interface{}{"blocks_per_chain": "2 (K2), 3 (K24), 4 (S H), 6 (A B C D E), 3 (ord-*)", "partitions": "all 2^(n-1)", "workers": wl, "default_workers": defaultW},
 		"outcome_classes":               d.classes.Map(),
 		"tx_outcome_classes":            txClasses.Map(),
 		"chain_summaries":               chainSummary,
